@@ -4,15 +4,16 @@
   Model: `ExoModel.Simplify` (literal mirror of `_DoNormalize` + `DoSimplify`).
   The range analysis enters as an oracle assumed sound (`Oracle.Sound`; C13 proves the analysis).
 
-  The property at full strength is FALSE for the faithful model, for four reasons, each
-  proved below on a concrete witness and replayed on the real code by harness/props/c12.py:
-    * `modulo_simplification` drops `% m` knowing only `e < m`              (finding F2)
+  `modulo_simplification` asks the range analysis for `0 ≤ e < m` since commit d86c98ae (finding F2 fixed);
+  `prefix_modulo_rewrite_without_lower_bound_false` records why the lower bound is needed.
+
+  The property at full strength is still FALSE for the faithful model, for three reasons, each proved
+  below on a concrete witness and replayed on the real code by harness/props/c12.py:
     * the fact table is keyed by printed text: a shadowing name hits it      (finding F14)
     * `is_quotient_remainder` compares by printed text as well               (found while building C12)
     * a fact about a config field survives a write to that field             (found while building C12)
-  The `_partial` theorems carry exactly the hypotheses that exclude these: `Oracle.ModNonNeg`
-  (every `e < m` answer comes with `0 ≤ e`), `NoClash` / `Scoped` (no two symbols in scope print alike;
-  no config write inside a then-branch).
+  The `_partial` theorems carry exactly the hypotheses that exclude these: `NoClash` / `Scoped`
+  (no two symbols in scope print alike; no config write inside a then-branch).
 -/
 import ExoModel.Lemmas.SimplifyWitness
 
@@ -48,18 +49,22 @@ theorem denominator_merge_preserves_value (ρ : Val) (x : Expr) (c : Int) (hx : 
 example : denomLoop (.bin .div (.bin .div (.var wn) (.const 2)) (.const 3)) 4 = .bin .div (.var wn) (.const 24) := by
   decide
 
-/-- `modulo_simplification` preserves the value IF every `e < m` answer of the oracle comes with `0 ≤ e`.
-    `_partial`: the code does not check `0 ≤ e` (finding F2); without `hM` the statement is false
-    (`modulo_rewrite_full_false`). -/
-theorem modulo_rewrite_preserves_value_partial (O : Oracle) (P : Val → Prop) (hS : O.Sound P)
-    (hM : O.ModNonNeg P) (ρ : Val) (hρ : P ρ) (lhs : Expr) (m : Int) (hm : 0 < m) (e' : Expr)
+/-- `modulo_simplification`: `lhs % m` is replaced by an expression of the same value (multiples of `m`
+    dropped; `% m` dropped only when the sound oracle answers `0 ≤ e < m`). -/
+theorem modulo_rewrite_preserves_value (O : Oracle) (P : Val → Prop) (hS : O.Sound P)
+    (ρ : Val) (hρ : P ρ) (lhs : Expr) (m : Int) (hm : 0 < m) (e' : Expr)
     (h : modSimp O lhs m = some e') : eval ρ e' = eval ρ lhs % m :=
-  modSimp_sound O P hS hM ρ hρ lhs m hm e' h
+  modSimp_sound O P hS ρ hρ lhs m hm e' h
 
-/-- the statement without `ModNonNeg` is false: sound oracle, `(i - 3) % 8` with `i ∈ [0,4)` becomes `-3 + i`. -/
-theorem modulo_rewrite_full_false :
+/-- the fixed code keeps the `%` of the old F2 witness even for an oracle that answers `-3 + i < 8` -/
+example : modSimp (wOracle wScope) (.bin .sub (.var wi) (.const 3)) 8 = some (.bin .mod wTarget (.const 8)) := by
+  decide
+
+/-- About the PRE-FIX code (before d86c98ae, finding F2), kept to document why the query needs `0 ≤ e`:
+    with only `e < m` asked (`modSimpPreFix`), a sound oracle, `(i - 3) % 8` with `i ∈ [0,4)` became `-3 + i`. -/
+theorem prefix_modulo_rewrite_without_lower_bound_false :
     ¬ (∀ (O : Oracle) (P : Val → Prop), O.Sound P → ∀ (ρ : Val), P ρ → ∀ (lhs : Expr) (m : Int), 0 < m →
-        ∀ e', modSimp O lhs m = some e' → eval ρ e' = eval ρ lhs % m) := by
+        ∀ e', modSimpPreFix O lhs m = some e' → eval ρ e' = eval ρ lhs % m) := by
   intro H
   have hS : (wOracle wScope).Sound (Reach (fun _ => True) wScope) := wOracle_sound wScope
   have hR : Reach (fun _ => True) wScope ⟨setSym (fun _ => 0) wi 0, fun _ _ => 0⟩ :=
@@ -67,12 +72,6 @@ theorem modulo_rewrite_full_false :
   have := H _ _ hS _ hR (.bin .sub (.var wi) (.const 3)) 8 (by decide) wTarget (by decide)
   revert this
   decide
-
-/-- with the missing check added to the query (`fixMod`), `modulo_simplification` is correct outright. -/
-theorem modulo_rewrite_with_nonneg_check (O : Oracle) (P : Val → Prop) (hS : O.Sound P) (ρ : Val) (hρ : P ρ)
-    (lhs : Expr) (m : Int) (hm : 0 < m) (e' : Expr) (h : modSimp (fixMod O) lhs m = some e') :
-    eval ρ e' = eval ρ lhs % m :=
-  modSimp_sound (fixMod O) P (fixMod_sound O P hS) (fixMod_modNonNeg O P hS) ρ hρ lhs m hm e' h
 
 /-! ## 3. constant folding, unit laws, quotient–remainder recombination -/
 
@@ -127,9 +126,9 @@ example : isKnown (addFact (.bin .eq (.bin .div (.var wn) (.const 4)) (.const 0)
 
 /-- `simplify` on an index / bound / size / condition expression: `_DoNormalize.map_e` then
     `DoSimplify.map_e` with branch facts `F`.  For ALL expressions, oracles, fact tables, valuations.
-    `_partial`: needs `ModNonNeg` (F2) and `NoClash` (F14); `FactsOK` is the invariant the statement layer
+    `_partial`: needs `NoClash` (F14, same-name recombination); `FactsOK` is the invariant the statement layer
     maintains (it fails to under a config write, see `simplifyB_unscoped_false_cfg_write`). -/
-theorem simplifyE_preserves_value_partial (O : Oracle) (P : Val → Prop) (hS : O.Sound P) (hM : O.ModNonNeg P)
+theorem simplifyE_preserves_value_partial (O : Oracle) (P : Val → Prop) (hS : O.Sound P)
     (nodeEq : Expr → Expr → Bool) (hEq : ∀ a b, nodeEq a b = true → a = b)
     (V : List Sym) (hV : NoClash V) (F : Facts) (ρ : Val) (hρ : P ρ) (hF : FactsOK V ρ F)
     (e e' : Expr) (hw : e.WF) (ho : Over V e) (h : simplifyE O nodeEq F e = some e') :
@@ -137,7 +136,7 @@ theorem simplifyE_preserves_value_partial (O : Oracle) (P : Val → Prop) (hS : 
   unfold simplifyE at h
   split at h
   · rename_i e1 h1
-    obtain ⟨a, _⟩ := normE_sound_WF O P hS hM ρ hρ e e1 hw h1
+    obtain ⟨a, _⟩ := normE_sound_WF O P hS ρ hρ e e1 hw h1
     have o1 := normE_over V O e e1 ho h1
     rw [(simpE_sound nodeEq hEq V hV ρ F hF e1 e' o1 h).1, a]
   · cases h
@@ -147,23 +146,23 @@ example : simplifyE (xOracle wScope) noEq (addFact (.bin .eq (.var wn) (.const 4
     = some (.bin .add (.var wi) (.const 2)) := by decide
 
 /-- a branch is removed only if its condition has the same truth value for every admitted valuation -/
-theorem dead_branch_never_taken_partial (O : Oracle) (P : Val → Prop) (hS : O.Sound P) (hM : O.ModNonNeg P)
+theorem dead_branch_never_taken_partial (O : Oracle) (P : Val → Prop) (hS : O.Sound P)
     (nodeEq : Expr → Expr → Bool) (hEq : ∀ a b, nodeEq a b = true → a = b)
     (V : List Sym) (hV : NoClash V) (F : Facts) (ρ : Val) (hρ : P ρ) (hF : FactsOK V ρ F)
     (c c' : Expr) (hw : c.WF) (ho : Over V c) (h : simplifyE O nodeEq F c = some c') (b : Bool)
     (hb : constCond c' = some b) : (eval ρ c ≠ 0) ↔ b = true := by
-  rw [← simplifyE_preserves_value_partial O P hS hM nodeEq hEq V hV F ρ hρ hF c c' hw ho h]
+  rw [← simplifyE_preserves_value_partial O P hS nodeEq hEq V hV F ρ hρ hF c c' hw ho h]
   exact constCond_eval ρ c' b hb
 
 /-- a loop is removed only if its trip count is zero for every admitted valuation -/
-theorem dead_loop_never_runs_partial (O : Oracle) (P : Val → Prop) (hS : O.Sound P) (hM : O.ModNonNeg P)
+theorem dead_loop_never_runs_partial (O : Oracle) (P : Val → Prop) (hS : O.Sound P)
     (nodeEq : Expr → Expr → Bool) (hEq : ∀ a b, nodeEq a b = true → a = b)
     (V : List Sym) (hV : NoClash V) (F : Facts) (ρ : Val) (hρ : P ρ) (hF : FactsOK V ρ F)
     (lo hi lo' hi' : Expr) (hwl : lo.WF) (hwh : hi.WF) (hol : Over V lo) (hoh : Over V hi)
     (hl : simplifyE O nodeEq F lo = some lo') (hh : simplifyE O nodeEq F hi = some hi')
     (hc : constEq lo' hi' = true) : (eval ρ hi - eval ρ lo).toNat = 0 := by
-  have a := simplifyE_preserves_value_partial O P hS hM nodeEq hEq V hV F ρ hρ hF lo lo' hwl hol hl
-  have b := simplifyE_preserves_value_partial O P hS hM nodeEq hEq V hV F ρ hρ hF hi hi' hwh hoh hh
+  have a := simplifyE_preserves_value_partial O P hS nodeEq hEq V hV F ρ hρ hF lo lo' hwl hol hl
+  have b := simplifyE_preserves_value_partial O P hS nodeEq hEq V hV F ρ hρ hF hi hi' hwh hoh hh
   have := constEq_eval ρ lo' hi' hc
   omega
 
@@ -173,10 +172,10 @@ theorem dead_loop_never_runs_partial (O : Oracle) (P : Val → Prop) (hS : O.Sou
     executed access, allocation size, call argument) and the final configuration unchanged, for every
     valuation of the arguments in `P`: hence every index/bound/size/condition expression that is evaluated
     keeps its value, a removed branch is never taken and a removed loop never runs.
-    `_partial`: `hM` excludes F2; `Scoped` excludes name clashes at loop binders (F14) and config writes
-    inside then-branches. -/
+    `_partial`: `Scoped` excludes name clashes at loop binders (F14) and config writes inside
+    then-branches; without it the statement is false (two witnesses below). -/
 theorem simplifyB_preserves_trace_partial (O : OracleS) (P : Val → Prop)
-    (hS : ∀ sc, (O sc).Sound (Reach P sc)) (hM : ∀ sc, (O sc).ModNonNeg (Reach P sc))
+    (hS : ∀ sc, (O sc).Sound (Reach P sc))
     (nodeEq : Expr → Expr → Bool) (hEq : ∀ a b, nodeEq a b = true → a = b)
     (V : List Sym) (hV : NoClash V) (b b2 : Block) (hw : b.WF) (hs : b.Scoped V false)
     (h : simplifyB O nodeEq b = some b2) (r : Sym → Int) (σ : CfgSt) (hP : P ⟨r, σ⟩) :
@@ -184,7 +183,7 @@ theorem simplifyB_preserves_trace_partial (O : OracleS) (P : Val → Prop)
   unfold simplifyB at h
   split at h
   · rename_i b1 h1
-    have e1 := normB_sound O P hS hM b [] b1 hw h1 r σ (Reach.base hP)
+    have e1 := normB_sound O P hS b [] b1 hw h1 r σ (Reach.base hP)
     have s1 := normB_scoped O V false b [] b1 hs h1
     simp only [simpB, Option.map_eq_some_iff] at h
     obtain ⟨b3, h3, rfl⟩ := h
@@ -204,36 +203,29 @@ example : simplifyB xOracle noEq xProg = some
 
 example (r : Sym → Int) (σ : CfgSt) (hn : 1 ≤ r wn) (b2 : Block) (h : simplifyB xOracle noEq xProg = some b2) :
     execB b2 r σ = execB xProg r σ :=
-  simplifyB_preserves_trace_partial xOracle (fun ρ => 1 ≤ ρ.sym wn) xOracle_sound xOracle_modNonNeg noEq noEq_ok
+  simplifyB_preserves_trace_partial xOracle (fun ρ => 1 ≤ ρ.sym wn) xOracle_sound noEq noEq_ok
     [wn] noClash_wn xProg b2 xProg_WF xProg_scoped h r σ hn
 
-/-- FALSE without `ModNonNeg` (finding F2): all other hypotheses hold for
-    `for i in seq(0,4): x[(i - 3) % 8]`, the result is `x[-3 + i]`. -/
-theorem simplifyB_without_nonneg_false :
-    ¬ (∀ (O : OracleS) (P : Val → Prop), (∀ sc, (O sc).Sound (Reach P sc)) →
-        ∀ (nodeEq : Expr → Expr → Bool), (∀ a b, nodeEq a b = true → a = b) →
-        ∀ (V : List Sym), NoClash V → ∀ (b b2 : Block), b.WF → b.Scoped V false →
-        simplifyB O nodeEq b = some b2 → ∀ (r : Sym → Int) (σ : CfgSt), P ⟨r, σ⟩ →
-        execB b2 r σ = execB b r σ) := by
-  intro H
-  have := H wOracle (fun _ => True) wOracle_sound noEq noEq_ok [] (by intro a ha; cases ha)
-    wProgF2 _ wProgF2_WF wProgF2_scoped (by decide :
-      simplifyB wOracle noEq wProgF2 = some (.cons (.loop wi (.const 0) (.const 4)
-        (.cons (.obs [.bin .add (.const (-3)) (.var wi)]) .nil)) .nil)) (fun _ => 0) (fun _ _ => 0) trivial
-  have := congrArg Prod.fst this
-  revert this
-  decide
+/-- the old F2 witness `for i in seq(0,4): x[(i - 3) % 8]` under the oracle that answers `-3 + i < 8`:
+    the fixed code keeps the `%`, and the theorem applies (all hypotheses hold) -/
+example : simplifyB wOracle noEq wProgF2 = some (.cons (.loop wi (.const 0) (.const 4)
+    (.cons (.obs [.bin .mod (.bin .add (.const (-3)) (.var wi)) (.const 8)]) .nil)) .nil) := by decide
+
+example (r : Sym → Int) (σ : CfgSt) (b2 : Block) (h : simplifyB wOracle noEq wProgF2 = some b2) :
+    execB b2 r σ = execB wProgF2 r σ :=
+  simplifyB_preserves_trace_partial wOracle (fun _ => True) wOracle_sound noEq noEq_ok [] (by intro a ha; cases ha)
+    wProgF2 b2 wProgF2_WF wProgF2_scoped h r σ trivial
 
 /-- FALSE without the scoping discipline, witness 1 (finding F14): the oracle never answers, there is no
     `%`; `if i == 0:` rewrites the inner, shadowing `i` to `0`. -/
 theorem simplifyB_unscoped_false_shadowed_name :
-    ¬ (∀ (O : OracleS) (P : Val → Prop), (∀ sc, (O sc).Sound (Reach P sc)) → (∀ sc, (O sc).ModNonNeg (Reach P sc)) →
+    ¬ (∀ (O : OracleS) (P : Val → Prop), (∀ sc, (O sc).Sound (Reach P sc)) →
         ∀ (nodeEq : Expr → Expr → Bool), (∀ a b, nodeEq a b = true → a = b) →
         ∀ (b b2 : Block), b.WF →
         simplifyB O nodeEq b = some b2 → ∀ (r : Sym → Int) (σ : CfgSt), P ⟨r, σ⟩ →
         execB b2 r σ = execB b r σ) := by
   intro H
-  have := H noOracle (fun _ => True) (noOracle_sound _) (noOracle_modNonNeg _) noEq noEq_ok
+  have := H noOracle (fun _ => True) (noOracle_sound _) noEq noEq_ok
     wProgF14 _ wProgF14_WF (by decide :
       simplifyB noOracle noEq wProgF14 = some (.cons (.loop wi (.const 0) (.const 4)
         (.cons (.ite (.bin .eq (.var wi) (.const 0))
@@ -245,13 +237,13 @@ theorem simplifyB_unscoped_false_shadowed_name :
 
 /-- FALSE without the scoping discipline, witness 2: `if Cfg.a == 3: Cfg.a = 4; x[Cfg.a]` becomes `…; x[3]`. -/
 theorem simplifyB_unscoped_false_cfg_write :
-    ¬ (∀ (O : OracleS) (P : Val → Prop), (∀ sc, (O sc).Sound (Reach P sc)) → (∀ sc, (O sc).ModNonNeg (Reach P sc)) →
+    ¬ (∀ (O : OracleS) (P : Val → Prop), (∀ sc, (O sc).Sound (Reach P sc)) →
         ∀ (nodeEq : Expr → Expr → Bool), (∀ a b, nodeEq a b = true → a = b) →
         ∀ (b b2 : Block), b.WF →
         simplifyB O nodeEq b = some b2 → ∀ (r : Sym → Int) (σ : CfgSt), P ⟨r, σ⟩ →
         execB b2 r σ = execB b r σ) := by
   intro H
-  have := H noOracle (fun _ => True) (noOracle_sound _) (noOracle_modNonNeg _) noEq noEq_ok
+  have := H noOracle (fun _ => True) (noOracle_sound _) noEq noEq_ok
     wProgCfg _ wProgCfg_WF (by decide :
       simplifyB noOracle noEq wProgCfg = some (.cons (.ite (.bin .eq (.cfg "Cfg" "a") (.const 3))
         (.cons (.wcfg "Cfg" "a" (.const 4)) (.cons (.obs [.const 3]) .nil)) .nil) .nil))
@@ -259,15 +251,5 @@ theorem simplifyB_unscoped_false_cfg_write :
   have := congrArg Prod.fst this
   revert this
   decide
-
-/-- with the `0 ≤ e` check added to the modulo query, only the scoping hypotheses remain -/
-theorem simplifyB_with_nonneg_check_preserves_trace (O : OracleS) (P : Val → Prop)
-    (hS : ∀ sc, (O sc).Sound (Reach P sc))
-    (nodeEq : Expr → Expr → Bool) (hEq : ∀ a b, nodeEq a b = true → a = b)
-    (V : List Sym) (hV : NoClash V) (b b2 : Block) (hw : b.WF) (hs : b.Scoped V false)
-    (h : simplifyB (fun sc => fixMod (O sc)) nodeEq b = some b2) (r : Sym → Int) (σ : CfgSt) (hP : P ⟨r, σ⟩) :
-    execB b2 r σ = execB b r σ :=
-  simplifyB_preserves_trace_partial (fun sc => fixMod (O sc)) P (fun sc => fixMod_sound _ _ (hS sc))
-    (fun sc => fixMod_modNonNeg _ _ (hS sc)) nodeEq hEq V hV b b2 hw hs h r σ hP
 
 end Exo.Simplify
